@@ -6,6 +6,7 @@ package bridge
 import (
 	"fmt"
 	"math"
+	"math/big"
 
 	cose "github.com/veraison/go-cose"
 
@@ -67,6 +68,10 @@ func goInt(v rc.Val) any {
 		}
 	case rc.SpAlgorithm:
 		return cose.Algorithm(i)
+	case rc.SpBigInt:
+		return *big.NewInt(i)
+	case rc.SpBigIntPtr:
+		return big.NewInt(i)
 	}
 	return i
 }
